@@ -17,7 +17,7 @@
 From Coq Require Import ZArith.
 From XV Require Import lib.Bytes lib.Xml lib.Schema C19.Form C19.Types C19.Model C19.Spec C19.ProofsLib
   C19.ProofsA C19.ProofsB C19.ProofsC C19.ProofsD C19.ProofsE C19.ProofsF C19.ProofsG
-  C19.ProofsForm1 C19.ProofsForm2 C19.ProofsForm3 C19.ProofsForm4 gen.Payloads C19.ProofsGen.
+  C19.ProofsForm1 C19.ProofsForm2 C19.ProofsForm3 C19.ProofsForm4 C19.ProofsH gen.Payloads C19.ProofsGen.
 
 (* ---- the constants of the models are those of the source (regenerated on every run) ---- *)
 
@@ -465,8 +465,15 @@ Theorem C19_file_meta_constructors_no_panic :
 Proof. exact fmeta_enc_total. Qed.
 Print Assumptions C19_file_meta_constructors_no_panic.
 
-(* history.Query: building never panics, unmarshalling is total (after the repair of the
-   nil form); its round trip is established by the correspondence check only *)
+(* history.Query: the query submits a seven-field data form and reads the filters back through
+   Get. Round trip through both paths: times come back in UTC (the zero time as the zero time),
+   empty ids are not sent; building never panics, unmarshalling is total (after the repairs) *)
+Theorem C19_history_query_roundtrip : roundtrip hquery_c hq_dom hq_norm.
+Proof. exact hquery_roundtrip. Qed.
+Print Assumptions C19_history_query_roundtrip.
+Theorem C19_history_query_wellformed : wellformed hquery_c hquery_els hquery_ats.
+Proof. exact hquery_wellformed. Qed.
+Print Assumptions C19_history_query_wellformed.
 Theorem C19_history_query_constructors_no_panic : forall o q, or_safe o -> safe (c_enc hquery_c o q).
 Proof. exact hquery_enc_safe. Qed.
 Print Assumptions C19_history_query_constructors_no_panic.
